@@ -12,6 +12,11 @@
 // success_opt, failure_opt, from_optional, error_from_optional, first_success, loop}, variant::{object ctor, match,
 // apply, to_optional}, move_if_rvalue, move_if, move_clear, move_iterator_if_rvalue, container::make_move_range.
 // Outside the claim: either::try_call with a throwing function (handlers are not executed), operations on streams.
+// Violations on the unchanged tree (triaged as genuine, reproduced natively with std::string / a counting type):
+//   h_either_bind_rv, h_either_join_rv: either::bind copies the failure of an rvalue either
+//     (`result_type{_either.get_failure_unsafe()}` lacks move_if_rvalue; join is bind id)
+//   h_optional_to_container_lv: to_container(lvalue optional) moves the value out of its argument
+//     (container::make moves from every argument; a const lvalue optional does not even compile)
 //@property C05
 #include "C05_common.hpp"
 #include <fcppt/move_clear.hpp>
